@@ -260,13 +260,21 @@ pub fn run_c03(cx: &Cx) -> PropResult {
             }
             acc.bump("compiled_histories", 1);
         }
+        let nt = crate::props::derived::batch().tuple_histories.len();
+        for t in (shard..nt).step_by(cx.shards) {
+            let strat = tuple_evo_strategy(t);
+            if drive(crate::run::tag_seed(derive_seed(cx.seed, cx.prop, t as u64, 8), 100 + t as u64), &strat, per_compiled, acc, &|c: &TupleEvoCase| to_json(&json!({"Tuple": c})), &mut |c, a, r| check_c03_tuple(c, a, r)) {
+                return;
+            }
+            acc.bump("compiled_tuple_variant_histories", 1);
+        }
         let strat = if shard % 4 == 3 { evo_case_strategy(6, 40) } else { evo_case_strategy(5, 8) };
         drive(crate::run::tag_seed(derive_seed(cx.seed, cx.prop, shard as u64, 0), 0), &strat, per_shard, acc, &|c: &EvoCase| to_json(c), &mut |c, a, r| check_c03(c, a, r));
     });
     let mut r = PropResult::new(
         acc,
         "exploration",
-        "E3 cases = (legal evolution history H built by construction from a generated spec: 0-6 initial fields incl. transient ones, up to 8 (every 4th shard: 40) steps of FieldAdded at a random declaration position / FieldMadeOptional / FieldRemoved / FieldMadeTransient; writer version w; reader version r; value of version w; placement: top level, between two sibling fields of a tuple, element of a Vec, inside Option, body of a struct variant of an enum). Both versions are driven through AdtSerializer / AdtDeserializer exactly as the derive expansion does (E3; validated against the real expansion by C02). Oracle: expected(H, w, r, v) computed on the logical level from the documentation (default / wrap / unwrap / absent-if-optional / the two specific errors with the field name, first error in declaration order), siblings intact and the whole buffer consumed. Non-trivial = w != r; classes = reader branch x (w<r, w=r, w>r) x placement. E2 cases: the same check on all versions of the 36 histories of the compiled batch (types H{h}V{i} generated by vgen and compiled with the real derive macro), all (w, r) pairs; histories whose types contain DeduplicatedString — or nested declarations with removed-field names in their headers, which are deduplicated strings as well — only with w = r.",
+        "E3 cases = (legal evolution history H built by construction from a generated spec: 0-6 initial fields incl. transient ones, up to 8 (every 4th shard: 40) steps of FieldAdded at a random declaration position / FieldMadeOptional / FieldRemoved / FieldMadeTransient; writer version w; reader version r; value of version w; placement: top level, between two sibling fields of a tuple, element of a Vec, inside Option, body of a struct variant of an enum). Both versions are driven through AdtSerializer / AdtDeserializer exactly as the derive expansion does (E3; validated against the real expansion by C02). Oracle: expected(H, w, r, v) computed on the logical level from the documentation (default / wrap / unwrap / absent-if-optional / the two specific errors with the field name, first error in declaration order), siblings intact and the whole buffer consumed. Non-trivial = w != r; classes = reader branch x (w<r, w=r, w>r) x placement. E2 cases: the same check on all versions of the 36 histories of the compiled batch (types H{h}V{i} generated by vgen and compiled with the real derive macro), all (w, r) pairs; histories whose types contain DeduplicatedString — or nested declarations with removed-field names in their headers, which are deduplicated strings as well — only with w = r. Tuple variants: histories whose fields are only appended (positional names stay stable) are compiled as enums T{t}V{v} = { Nil, Rec(..) } with the history on the tuple variant, and all (w, r) pairs are read through the macro's positional-field code.",
     );
     r.assumptions = vec![
         "DESIGN section 9: embedded placement with stored version 0 and a removed chunk-0 field is outside the quantifier (counted under excluded_by_construction)".into(),
@@ -276,6 +284,10 @@ pub fn run_c03(cx: &Cx) -> PropResult {
 }
 
 pub fn replay_c03(case: &Value) -> Verdict {
+    if let Some(t) = case.get("Tuple") {
+        let c: TupleEvoCase = serde_json::from_value(t.clone()).expect("replay case");
+        return check_c03_tuple(&c, &mut Acc::new(), false);
+    }
     let c: EvoCase = serde_json::from_value(case.clone()).expect("replay case");
     check_c03(&c, &mut Acc::new(), false)
 }
@@ -296,4 +308,92 @@ pub fn materialize_evo(c: &EvoCase) -> Option<(Ty, Ty, Vec<u8>, Result<Val, Read
     let expected = expected_wrapped(c.placement, &versions, c.w, c.r, &c.val, &mut classes).map(|e| vmodel::with_transient_defaults(&tr, &e));
     let bytes = vcat::encode(&tw, &c.val).0.ok()?;
     Some((tw, tr, bytes, expected, versions[c.w].steps.len()))
+}
+
+// ---- tuple-variant histories of the compiled batch (the macro's positional-field branches across versions)
+
+#[derive(Debug, Clone, Serialize, Deserialize)]
+pub struct TupleEvoCase {
+    pub t: usize,
+    pub w: usize,
+    pub r: usize,
+    pub val: Val,
+}
+
+fn tuple_records(t: usize) -> Vec<Record> {
+    crate::props::derived::batch().tuple_histories[t]
+        .iter()
+        .map(|d| match &d.body {
+            vmodel::DeclBody::Enum { variants, .. } => variants[1].record.clone(),
+            _ => unreachable!(),
+        })
+        .collect()
+}
+
+pub fn tuple_evo_strategy(t: usize) -> BoxedStrategy<TupleEvoCase> {
+    let decls = crate::props::derived::batch().tuple_histories[t].clone();
+    let n = decls.len();
+    (0..n, 0..n)
+        .prop_flat_map(move |(w, r)| {
+            let cfg = ValCfg { max_len: 3, long: false, ..ValCfg::default() };
+            (Just(w), Just(r), val_strategy(&Ty::Adt(decls[w].clone()), cfg))
+        })
+        .prop_map(move |(w, r, val)| TupleEvoCase { t, w, r, val })
+        .boxed()
+}
+
+pub fn check_c03_tuple(c: &TupleEvoCase, acc: &mut Acc, record: bool) -> Verdict {
+    let decls = &crate::props::derived::batch().tuple_histories[c.t];
+    let records = tuple_records(c.t);
+    let (tw, tr) = (Ty::Adt(decls[c.w].clone()), Ty::Adt(decls[c.r].clone()));
+    let (expected, classes) = match &c.val {
+        Val::Variant(1, fs) => {
+            let (e, cls) = expected_read(&records, c.w, c.r, &Val::Rec(fs.clone()));
+            (e.map(|v| match v {
+                Val::Rec(out) => Val::Variant(1, out),
+                o => o,
+            }), cls)
+        }
+        other => (Ok(other.clone()), vec![]),
+    };
+    let bytes = match vcat::encode(&tw, &c.val).0 {
+        Ok(b) => b,
+        Err(e) => return Verdict::Fail(format!("T{}V{} cannot encode {}: {e:?}", c.t, c.w, c.val.brief())),
+    };
+    if record {
+        let rel = if c.w < c.r { "w<r" } else if c.w == c.r { "w=r" } else { "w>r" };
+        let mut cl: Vec<String> = classes.iter().map(|c| format!("{c:?}")).collect();
+        cl.sort();
+        cl.dedup();
+        let class = format!("compiled tuple variant: {} [{rel}]", if cl.is_empty() { "unit".to_string() } else { cl.join("+") });
+        acc.case(&class, hash_json(c), c.w != c.r);
+        if c.w != c.r && acc.wants_sample(&class) {
+            acc.sample(&class, json!({"writer": vmodel::render::decl_src(&decls[c.w]), "reader": vmodel::render::decl_src(&decls[c.r]), "value": c.val.brief(), "bytes_hex": hex(&bytes[..bytes.len().min(48)])}));
+        }
+    }
+    let (got, rest) = vcat::decode_with_rest(&tr, &bytes);
+    match (expected, got) {
+        (Ok(e), Ok(g)) => {
+            if canon(&tr, &g) != canon(&tr, &vmodel::with_transient_defaults(&tr, &e)) {
+                return Verdict::Fail(format!("T{}V{} read data of T{}V{} as {} — documented outcome is {} (steps {:?})", c.t, c.r, c.t, c.w, g.brief(), e.brief(), records.last().unwrap().steps));
+            }
+            if !rest.is_empty() && !unframed_removal(&records, c.w, c.r) {
+                return Verdict::Fail(format!("{} bytes left unread", rest.len()));
+            }
+            Verdict::Pass
+        }
+        (Err(e), Err(g)) => {
+            let (kind, field) = match &e {
+                ReadErr::FieldRemovedInSerializedVersion(f) => ("FieldRemovedInSerializedVersion", f),
+                ReadErr::NonOptionalFieldSerializedAsNone(f) => ("NonOptionalFieldSerializedAsNone", f),
+            };
+            if g.kind == kind && g.detail.contains(&format!("\"{field}\"")) {
+                Verdict::Pass
+            } else {
+                Verdict::Fail(format!("expected {kind}({field}), got {g:?}"))
+            }
+        }
+        (Ok(e), Err(g)) => Verdict::Fail(format!("T{}V{} failed to read data of T{}V{}: {g:?}; documented outcome is {} (steps {:?}, bytes {})", c.t, c.r, c.t, c.w, e.brief(), records.last().unwrap().steps, hex(&bytes))),
+        (Err(e), Ok(g)) => Verdict::Fail(format!("T{}V{} read data of T{}V{} as {} — documented outcome is the error {e:?}", c.t, c.r, c.t, c.w, g.brief())),
+    }
 }
